@@ -255,6 +255,12 @@ func (w *World) idTokenHint(kind string) string {
 		sub = "somebody-else"
 	case "same_expired":
 		exp = time.Now().Add(-2 * Tick)
+	case "other_expired":
+		sub = "somebody-else"
+		exp = time.Now().Add(-2 * Tick)
+	case "foreign_key_expired":
+		key = unregisteredKey()
+		exp = time.Now().Add(-2 * Tick)
 	case "garbage":
 		return "not.an.id-token"
 	case "foreign_key":
